@@ -310,8 +310,9 @@ def replay(beh_path, mode="inline", nproc=NPROC, base_seed=None, fs=True, timeou
             frm, cnt = job
             outp = os.path.join(outdir, "r%d.ndjson" % frm)
             fh = open(outp, "w")
+            extra = os.environ.get("VERIF_CRASH_ARGS", "").split() if exe_name == "crash" else []
             p = subprocess.Popen([exe, "-in", beh_path, "-mode", mode, "-seed", str(base_seed), "-from", str(frm),
-                                  "-count", str(cnt), "-fs=%s" % ("true" if fs else "false")],
+                                  "-count", str(cnt), "-fs=%s" % ("true" if fs else "false")] + extra,
                                  stdout=fh, stderr=subprocess.PIPE, env=GOENV)
             return (p, fh, outp, job)
         pending = list(jobs)
